@@ -272,7 +272,7 @@ def check(pid, tier, seed, replay, no_lean=False):
             lc_ok, lc_out = leanio.leanchecker(pid)
             if not lc_ok:
                 broken.append({"kind": "leanchecker", "name": f"FlowRecordProofs.Props.{pid}", "detail": lc_out[-500:]})
-    driver_ok = os.path.exists(leanio.DRIVER)
+    driver_ok = os.path.exists(leanio.driver_path())
 
     # ---- 3. cases: fixed-finding witnesses + corpus first, then generated ----
     findings = load_findings(pid)
